@@ -14,6 +14,12 @@ func EndBlocker(ctx sdk.Context, k keeper.Keeper) {
 	}
 
 	for _, dataId := range expiredData.Data {
+		// an entry can be stale: left behind by a model that was terminated or rolled back and
+		// whose data id has since been created again with a later expiry
+		meta, found := k.GetMetadata(ctx, dataId)
+		if found && meta.CreatedAt+meta.Duration > uint64(ctx.BlockHeight()) {
+			continue
+		}
 		k.DeleteMeta(ctx, dataId)
 	}
 
